@@ -75,7 +75,8 @@ def run(cases):
     css0_of = {t: css0[str(i)] for i, t in enumerate(toks)}
     lib_lines = []
     model_lines = []
-    for i, (inp, st, entry) in zip(ids, cases):
+    envs = common.env_tables([c[0] for c in cases])
+    for (i, (inp, st, entry)), env in zip(zip(ids, cases), envs):
         if isinstance(entry, tuple):
             e = "override:%s:%s" % (f32bits(entry[1]), f32bits(entry[2]))
             mt = st.model_token((entry[1], entry[2]))
@@ -88,9 +89,9 @@ def run(cases):
         if f.startswith("cells=") and m.startswith("frags="):
             cells, esc, css = f.split(" ")
             frags, groups = m.split(" ")
-            model_lines.append("%s %s %s %s %s %s %s %s" % (
+            model_lines.append("%s %s %s %s %s %s %s %s %s" % (
                 i, entry_pretty(entry if not isinstance(entry, tuple) else "settings"), mt,
-                css0_of[st.impl_token()], cells, css, frags, groups))
+                css0_of[st.impl_token()], cells, css, frags, groups, env))
     lib = common.run_impl("lib", lib_lines)
     mod = common.run_model("back", model_lines)
     out = []
